@@ -6,7 +6,7 @@ LEVEL = "fault_enumeration"
 EXHAUSTIVE = {"quick": False, "thorough": True}
 RULE = ("INIT: the space {README.md, README.rst, setup.py} present/absent x {setup.cfg, pyproject.toml, bumpver.toml, "
         ".bumpver.toml, pycalver.toml} in {absent, empty, unrelated content with final newline, unrelated content without, "
-        "existing bumpver section with its own current_version} = %d layouts x simulated now in {mid-year, Dec 31 23:59:59, "
+        "existing bumpver section with its own current_version, the same with CRLF line endings} = %d layouts x simulated now in {mid-year, Dec 31 23:59:59, "
         "Jan 1 00:00:01} (thorough: enumerated completely = %d runs; quick: seeded sample). Ops: init --dry, init, show, init "
         "again (or, with an existing section: init, init --dry, show). Oracle: statement predicates on bytes, exit codes and "
         "`show` output (initial version = simulated year). distinct_nontrivial = distinct (layout, date) points."
